@@ -5,6 +5,14 @@ V = os.path.dirname(os.path.dirname(os.path.abspath(__file__)))
 
 # id: (level, engine, technique, level text, level note, design section)
 CHECKS = {
+ "C01": ("exploration", "e1",
+  "bounded-exhaustive enumeration of chain/transaction shapes (full product of a 256-shape alphabet, ordered shape pairs, CompactSize and integer boundary sweeps) executed on the real binary and compared byte-for-byte with an independent serialiser/hasher model",
+  "Every world of the stated grammar is materialised (blk file + LevelDB index) and dumped by the binary built from the working tree; all four CSV files must equal the reference rendering byte for byte, file names and the completion totals included, with and without --verify.",
+  "Trusted: SHA-256/RIPEMD-160 (bitcoin_hashes), rusty-leveldb. Not covered: counts >= 2^32, non-canonical CompactSize, versions >= 2^31.", "6/C01"),
+ "C03": ("exploration", "e1",
+  "exhaustive enumeration of physical layouts (all ordered arrangements of n blocks into <=3 files x gap kinds x index storage forms, VarInt-boundary sweeps of file numbers and offsets incl. sparse >4 GiB) executed on the real binary; every layout must reproduce the model output of the logical chain",
+  "All n!*C(n+2,2) arrangements (n=3 quick, n=4 thorough) with garbage / fake-magic / unindexed-block gaps, log-only / compacted / overwritten / reopened index, junk keys and foreign directory entries, plus one-dimension sweeps over every Core-VarInt width boundary for file numbers (up to 2^64-1) and data offsets (up to 5 GiB sparse) and file-name paddings: csvdump --verify output must equal the layout-independent model, hence be identical across layouts.",
+  "Trusted: rusty-leveldb (also used to write the index). Not covered: ambiguous duplicate file numbers, symlinks.", "6/C03"),
  "C02": ("model_checking", "e1",
   "explicit enumeration of the complete option space (tip x --start x --end x callback) executed on the real binary, compared with a reference model; differential slice law",
   "Every accepted (--start, --end) combination for every tip height up to the bound, for all five callbacks, plus the same range shapes on sparse indexes at VarInt-width, halving and >32-bit heights, is executed on the binary built from the working tree; delivered heights, file names, declared last height and per-callback output must equal the reference model run on exactly heights s..min(e,T).",
